@@ -575,6 +575,15 @@ def confirm_side(kind, what, F, hyps, seed=0):
     it is a refutation only if a concrete point that satisfies the hypotheses makes the operand 0 (or <= 0 for 'pos').
     returns a witness dict or None"""
     if kind not in ("pos", "nonzero"):
+        # an index-range condition over a GENERIC loop / element index (a symbol named x#n): such an index is in range by
+        # construction wherever its loop ran; a solver model that puts it out of range only shows that the range hypothesis was
+        # not among those recorded with the condition -- not a refutation
+        e_ = what[0] if isinstance(what, tuple) else what
+        try:
+            if any("#" in n for n in P(e_).syms):
+                return None
+        except Exception:
+            pass
         return {"note": "integer-linear condition"}
     p = P(what)
     free = sorted(p.syms)
@@ -638,6 +647,15 @@ def check_sides(sidelog, F, prefix, out, extra_hyps=(), final_values=None):
                 continue
             kind = "range"
         if kind == "bincount-range":
+            continue
+        if kind == "underflow":
+            key = (kind, loc.split(":")[0])
+            if key not in seen:
+                seen.add(key)
+                n += 1
+                out.append(Clause("%s.underflow@%s" % (prefix, loc), "undecided", "floatmodel",
+                                  "log of a sum of exponentials outside the stable log-add-exp and outside the recognised max-shift idiom: "
+                                  "may underflow to log(0) unless shifted"))
             continue
         if kind == "floatrange":
             key = (kind, what, loc.split(":")[0])
